@@ -262,7 +262,16 @@ def corpus_lines(engine):
 # ---------------------------------------------------------------------------------------------
 # shrinking (generic over the line protocol: space separated fields, comma lists, numbers)
 
+ENGINE_OF = {"mlw": "mlw", "spy": "mlw", "fmt": "fmt", "std": "fmt", "queue": "queue", "qstress": "queue", "queue0": "queue",
+             "sock": "sock", "sockmt": "sock", "socklock": "sock", "holder": "holder", "mac": "macros"}
+
+
+def engine_of(caseline, default):
+    return ENGINE_OF.get(caseline.split(" ", 1)[0], default)
+
+
 def case_fails(engine, prop, caseline, want):
+    engine = engine_of(caseline, engine)
     """re-run one case on the real code and the driver; `want` is 'P' (predicate of this property fails)
     or 'D' (projection disagrees).  Returns the event detail or None."""
     outl = run_engine_replay(engine, [caseline])
@@ -398,7 +407,8 @@ def check(prop, tier):
     t0 = time.time()
     seed = int(os.environ.get("VERIF_SEED", "1") or 1)
     spec = PROPS[prop]
-    engine = spec["engine"]
+    engines = spec["engine"] if isinstance(spec["engine"], list) else [spec["engine"]]
+    engine = engines[0]
     eng = ENGINES[engine]
     os.makedirs(os.path.join(WORK, prop), exist_ok=True)
     violations = []  # (replay path, suffix)
@@ -414,26 +424,32 @@ def check(prop, tier):
         return 2
 
     stats, samples, extra = {}, [], {}
-    rc, blog = build_engine(engine)
-    if rc != 0:
+    build_failed = None
+    for en in engines:
+        rc, blog = build_engine(en)
+        if rc != 0:
+            build_failed = (en, blog)
+            break
+    if build_failed:
         # form 4: the engine no longer compiles against /repo's tree
-        path = write_replay(prop, "engine-build", {"engine": engine, "what": "the correspondence harness no longer compiles against /repo's working tree", "compiler_output": blog})
+        path = write_replay(prop, "engine-build", {"engine": build_failed[0], "what": "the correspondence harness no longer compiles against /repo's working tree", "compiler_output": build_failed[1]})
         violations.append((path, " no-failing-input-found"))
     else:
         lines = []
-        corp = corpus_lines(engine)
-        if eng.get("corpus_filter"):
-            corp = [l for l in corp if eng["corpus_filter"](prop, l)]
-        if corp:
-            lines += run_engine_replay(engine, corp)
+        ncorp = 0
+        for en in engines:
+            corp = corpus_lines(en)
+            if corp:
+                lines += run_engine_replay(en, corp)
         ncorp = len(lines)
-        casefile = os.path.join(WORK, prop, "cases.txt")
-        grc, gerr = run_engine_gen(engine, tier, seed, casefile, spec.get("gen_args"))
-        if grc != 0:
-            path = write_replay(prop, "engine-crash", {"engine": engine, "what": "the engine crashed while generating cases (abort / uncaught panic in the real code)", "stderr": gerr})
-            violations.append((path, ""))
-        with open(casefile) as f:
-            lines += [l.rstrip("\n") for l in f if l.strip()]
+        for en in engines:
+            casefile = os.path.join(WORK, prop, "cases-%s.txt" % en)
+            grc, gerr = run_engine_gen(en, tier, seed, casefile, spec.get("gen_args"))
+            if grc != 0:
+                path = write_replay(prop, "engine-crash", {"engine": en, "what": "the engine crashed while generating cases (abort / uncaught panic in the real code)", "stderr": gerr})
+                violations.append((path, ""))
+            with open(casefile) as f:
+                lines += [l.rstrip("\n") for l in f if l.strip()]
         if spec.get("case_filter"):
             lines = [l for l in lines if spec["case_filter"](l)]
         events, stats = run_driver(prop, lines)
@@ -471,10 +487,10 @@ def check(prop, tier):
                     known_lines.append("KNOWN-FINDING: property=%s %s" % (prop, fnd["text"]))
                     return
             path = write_replay(prop, "predicate", {
-                "engine": engine, "case": small, "observed": got[0], "failed_clause": clause2,
+                "engine": engine_of(small, engine), "case": small, "observed": got[0], "failed_clause": clause2,
                 "original_case": caseline[:4000], "origin": origin, "seed": seed,
                 "finding_key": finding_key(clause2, small),
-                "how": "echo '<case>' | harness/target/release/%s replay | lean/.lake/build/bin/driver %s" % (engine, prop)})
+                "how": "echo '<case>' | harness/target/release/%s replay | lean/.lake/build/bin/driver %s" % (engine_of(small, engine), prop)})
             violations.append((path, ""))
 
         seen_clauses = set()
@@ -497,7 +513,7 @@ def check(prop, tier):
                 cands = eng["continuations"](small)
                 for base in [l.split(" => ")[0] for (m, _) in dis[:5] for l in [lines[m - 1]]]:
                     cands += eng["continuations"](base)[:400]
-                outl = run_engine_replay(engine, cands[:20000])
+                outl = run_engine_replay(engine_of(small, engine), cands[:20000])
                 ev2, _ = run_driver(prop, outl)
                 for k, m, rr in ev2:
                     if k == "P" and rr.startswith(prop + " "):
